@@ -218,6 +218,9 @@ def install(world):
             k = z3.Int(S.fresh_name('k'))
             return SSeq(z3.Length(x.t), z3.Lambda(
                 [k], z3.SubString(x.t, k, 1)), TStr)
+        if isinstance(x, SVal) and isinstance(sp.source, SSeq):
+            q = sp.source
+            return SSeq(q.length, q.arr, q.elem, q.off, kind='tuple')
         raise Unsupported('tuple() of %r' % (x,))
     reg('tuple', b_tuple, True)
 
@@ -238,6 +241,9 @@ def install(world):
         n = _concrete_len(sp.length)
         if n is not None:
             return [sp.item(k) for k in range(n)]
+        if isinstance(x, SVal) and isinstance(sp.source, SSeq):
+            q = sp.source
+            return MList(SSeq(q.length, q.arr, q.elem, q.off, kind='list'))
         raise Unsupported('list() of %r' % (x,))
     reg('list', b_list, True)
 
@@ -539,6 +545,20 @@ def install(world):
     world.lib[('unicodedata', 'category')] = Model(
         'unicodedata.category', lambda c: SStr(apply_uf(
             'unicodedata.category', (c,), 'Str').t))
+    # math.isfinite / isnan / isinf: floats are reals here (A2': no inf, no
+    # NaN), so every number is finite - but the CALL is logged, so that a
+    # type that starts to look at finiteness is seen to do so
+    def m_isfinite(it, node, x):
+        it.calls.append(('math.isfinite', (x,), True))
+        return True
+    world.lib[('math', 'isfinite')] = Model('math.isfinite', m_isfinite, True)
+    # threading locks: opaque objects; `with lock:` runs its body
+    for nm in ('Lock', 'RLock'):
+        world.lib[('threading', nm)] = Model(
+            'threading.' + nm, (lambda n: lambda: apply_uf(
+                'threading.' + n, (len(_CUR[0].calls) if _CUR[0] else 0,),
+                'Val'))(nm))
+    world.lib[('threading',)] = True
     world.lib[('inspect',)] = True
     for nm in ('isgenerator', 'isgeneratorfunction', 'isfunction',
                'ismethod', 'isclass', 'iscoroutine'):
@@ -773,8 +793,21 @@ def install(world):
             k = z3.Int(S.fresh_name('k'))
             was = it.spec
             it.spec = True
+            ncalls = len(it.calls)
             try:
                 body = it.call(fn, [q.elem.wrap(q.at(k))], {}, node)
+            except Unsupported:
+                # the body cannot be written as one term (it branches on the
+                # element): the image stays uninterpreted - nothing is known
+                # about the elements of the view, only that there is one per
+                # element pulled from the parent
+                del it.calls[ncalls:]
+                world.trusted_used.add(
+                    'map (T-lazy): image of a branching body uninterpreted')
+                body = apply_uf('map.image:%s:%d' % (
+                    getattr(fn, 'name', type(fn).__name__),
+                    getattr(node, 'lineno', 0)),
+                    (q.elem.wrap(q.at(k)),), 'Val')
             finally:
                 it.spec = was
             t = S.type_of(body)
@@ -783,6 +816,14 @@ def install(world):
             view = SSeq(q.length, z3.Lambda([k], t.unwrap(body)), t,
                         kind='iter')
             return S.SIter(view, parent=src)
+        if len(xs) == 1 and isinstance(xs[0], SVal):
+            # map over an opaque iterable: lazy, nothing is walked now
+            world.trusted_used.add('map (T-lazy, uninterpreted)')
+            r = apply_uf('map:%s:%d' % (
+                getattr(fn, 'name', type(fn).__name__),
+                getattr(node, 'lineno', 0)), (xs[0],), 'Val')
+            it.calls.append(('map', (fn, xs[0]), r))
+            return r
         seqs = [_as_seq(world, it, x) for x in xs]
         if all(isinstance(q, (tuple, list)) for q in seqs):
             n = min(len(q) for q in seqs)
@@ -1103,6 +1144,11 @@ def str_method(world, o, name, args, kw, it, node):
         for a, rest in zip(args, pieces[1:]):
             t = z3.Concat(t, TStr.unwrap(a), z3.StringVal(rest))
         return SStr(z3.simplify(t))
+    if name == 'isascii' and not args:
+        if isinstance(o, str):
+            return o.isascii()
+        return SBool(uf('str.isascii', z3.StringSort(), z3.BoolSort())(
+            TStr.unwrap(o)))
     if name == 'encode':
         # T-conv: str.encode(codec[, errors]) gives opaque bytes or raises
         # UnicodeEncodeError
